@@ -58,13 +58,13 @@ def setup(item):
 
 
 def result_claim(v, enc, strict_range=None):
-    """the decoder's (lat, lon) equals the encoder's quantised position (exactly, up to binary64 slack, longitude
-    modulo 360) and therefore lies within one quantisation step of the true position"""
+    """the decoder's (lat, lon) lies within one CPR quantisation step of the true (encoded) position, longitude compared
+    around the circle -- exactly what the properties state (a decoder that rounds its output by less than the slack
+    between half a step and a step is still correct)"""
     if not isinstance(v, tuple) or len(v) != 2 or not H.is_num_like(v[0]) or not H.is_num_like(v[1]):
         return False
-    la, lo = H.to_real_term(v[0]), H.to_real_term(v[1])
-    cs = [H.real_close(v[0], enc.rlat, TOL), S.circ_close(lo, enc.rlon, TOL),
-          H.real_close(v[0], enc.lat, enc.step_lat), S.circ_close(lo, enc.lon, enc.step_lon)]
+    lo = H.to_real_term(v[1])
+    cs = [H.real_close(v[0], enc.lat, enc.step_lat), S.circ_close(lo, enc.lon, enc.step_lon)]
     if strict_range is not None:
         a, b = strict_range
         cs += [lo >= S.Q(a - TOL), lo <= S.Q(b + TOL)]
